@@ -29,6 +29,8 @@ CONSTANTS
     StoreBeforeSign,\* FALSE: the signature is produced before the record is stored
     FaultIgnored,   \* TRUE: a failing store is ignored (the result stays APPROVED)
     UnlockEarly,    \* TRUE: keys are unlocked before the store
+    BusyDropsMap,   \* TRUE: a request that meets a busy key inside its PreLock section lets go of the locker-wide mutex while it waits
+                    \* for the key and takes it again afterwards ("do not sit on the global mutex")
     StoreMode       \* "atomic" (shipped: one committed transaction replaces the record) | "deleteThenSet" (the old record is
                     \* removed in one committed transaction and the new one written in a second)
 
@@ -134,6 +136,25 @@ LockNext(r) ==
          /\ holder' = [holder EXCEPT ![k] = r]
     /\ idx' = [idx EXCEPT ![r] = idx[r] + 1]
     /\ UNCHANGED <<def, disk, mapLock, pc, loc, res, nxt, sigs, released, order, faulted, crashes, faults, closed>>
+
+\* design mutant BusyDropsMap: the key is busy - release the locker-wide mutex, wait for the key, take the mutex again
+LockYield(r) ==
+    /\ BusyDropsMap /\ pc[r] = "lock" /\ idx[r] <= Len(LockSeq(r)) /\ mapLock = r
+    /\ holder[LockSeq(r)[idx[r]]] # None
+    /\ mapLock' = None
+    /\ Goto(r, "lockwait")
+    /\ UNCHANGED <<def, disk, holder, idx, loc, res, nxt, sigs, released, order, faulted, crashes, faults, closed>>
+LockWaitAcq(r) ==
+    /\ pc[r] = "lockwait"
+    /\ LET k == LockSeq(r)[idx[r]] IN holder[k] = None /\ holder' = [holder EXCEPT ![k] = r]
+    /\ Goto(r, "relock")
+    /\ UNCHANGED <<def, disk, mapLock, idx, loc, res, nxt, sigs, released, order, faulted, crashes, faults, closed>>
+ReLock(r) ==
+    /\ pc[r] = "relock" /\ mapLock = None
+    /\ mapLock' = r
+    /\ idx' = [idx EXCEPT ![r] = idx[r] + 1]
+    /\ Goto(r, "lock")
+    /\ UNCHANGED <<def, disk, holder, loc, res, nxt, sigs, released, order, faulted, crashes, faults, closed>>
 
 PostLock(r) ==
     /\ pc[r] = "lock"
@@ -314,7 +335,7 @@ CloseStore ==
     /\ closed' = TRUE
     /\ UNCHANGED <<def, disk, mapLock, holder, pc, idx, loc, res, nxt, sigs, released, order, faulted, crashes, faults>>
 
-Step(r) == \/ Choose(r) \/ Invoke(r) \/ PreCheckFail(r) \/ Validate(r) \/ PreLock(r) \/ LockNext(r) \/ PostLock(r)
+Step(r) == \/ Choose(r) \/ Invoke(r) \/ PreCheckFail(r) \/ Validate(r) \/ PreLock(r) \/ LockNext(r) \/ LockYield(r) \/ LockWaitAcq(r) \/ ReLock(r) \/ PostLock(r)
            \/ Fetch(r) \/ FetchFail(r) \/ FetchClosed(r) \/ Check(r) \/ Store(r) \/ StoreDel(r) \/ StoreSet(r) \/ StoreFail(r) \/ StoreClosed(r) \/ StoreDone(r)
            \/ Unlock(r) \/ Sign(r) \/ SignFail(r) \/ Reply(r) \/ EarlySign(r)
 
